@@ -271,11 +271,20 @@ TESTS = [
          examples={'quick': 1600, 'thorough': 30000}),
     Test('reconfig', run_reconfig, strategy=lambda tier: reconfig_cases(tier),
          examples={'quick': 4000, 'thorough': 80000}),
+    # Nelder-Mead with a grid constraint on a rugged cost, long enough for shrink steps (generator shared with C03): a
+    # shrunk vertex that becomes the best must be a point the cost was called at
+    Test('nm_shrink', run_class, strategy=lambda tier: _shrink_cases(tier),
+         examples={'quick': 2400, 'thorough': 50000}),
 ]
+
+def _shrink_cases(tier):
+    from vp.props.c03 import shrink_cases
+    return shrink_cases(tier)
+
 
 def _kf_f8(case, subcheck, detail):
     # F8: penalty is added before the reducer, so a sum-type reducer counts it once per component
-    return bool(case.get('reducer')) and case['reducer']['kind'] in ('sum', 'add2') and bool(case.get('penalty')) \
+    return bool(case.get('reducer')) and case['reducer']['kind'] in ('sum', 'add2', 'sumsq', 'maxabs') and bool(case.get('penalty')) \
         and subcheck in ('C01.energy', 'C01.members', 'C01.not_worse')
 
 
